@@ -82,9 +82,10 @@ Fixpoint aset {A} (k : string) (v : A) (l : list (string * A)) : list (string * 
   end.
 
 (* ------------------------------------------------------------------ compiler definitions *)
-Inductive dest := DDefs | DPaths | DFiles | DModes | DPasses.
+(* DSys = namespace.system_include_paths: only the generic -isystem registration writes it *)
+Inductive dest := DDefs | DPaths | DFiles | DModes | DPasses | DSys.
 Definition dest_eqb (a b : dest) : bool :=
-  match a, b with DDefs, DDefs | DPaths, DPaths | DFiles, DFiles | DModes, DModes | DPasses, DPasses => true | _, _ => false end.
+  match a, b with DDefs, DDefs | DPaths, DPaths | DFiles, DFiles | DModes, DModes | DPasses, DPasses | DSys, DSys => true | _, _ => false end.
 
 (* string.Template with exactly one placeholder: pre ++ value ++ post *)
 Definition fmt := option (string * string).
@@ -212,7 +213,7 @@ Definition mk (fl : list string) (a : action) (d : dest) : rule :=
   {| r_flags := fl; r_act := a; r_dest := d; r_default := None |}.
 (* the options parse_args registers for every compiler, in order *)
 Definition generic_rules : list rule :=
-  [ mk ["-D"] AAppend DDefs; mk ["-I"; "-isystem"] AAppend DPaths; mk ["-include"] AAppend DFiles;
+  [ mk ["-D"] AAppend DDefs; mk ["-I"] AAppend DPaths; mk ["-isystem"] AAppend DSys; mk ["-include"] AAppend DFiles;
     mk ["-O"] AIgnoreOpt DDefs; mk ["-o"] AIgnore1 DDefs; mk ["-g"] AIgnoreOpt DDefs; mk ["-c"] AIgnoreOpt DDefs ].
 
 Definition all_flags (rs : list rule) : list string := concat (map r_flags rs).
@@ -272,25 +273,27 @@ Fixpoint classify_all (rs : list rule) (argv : list string) : list (string * cls
   end.
 
 (* ------------------------------------------------------------------ namespace and actions *)
-Record ns := { n_defs : list string; n_paths : list string; n_files : list string;
+Record ns := { n_defs : list string; n_paths : list string; n_sys : list string; n_files : list string;
                n_modes : list string; n_passes : list string;
                n_up : list (string * list string);   (* namespace._passes *)
                n_ov : list string }.                 (* extend_match actions whose override was used *)
 
 Definition get_dest (d : dest) (n : ns) : list string :=
-  match d with DDefs => n_defs n | DPaths => n_paths n | DFiles => n_files n | DModes => n_modes n | DPasses => n_passes n end.
+  match d with DDefs => n_defs n | DPaths => n_paths n | DSys => n_sys n | DFiles => n_files n | DModes => n_modes n | DPasses => n_passes n end.
 Definition set_dest (d : dest) (v : list string) (n : ns) : ns :=
-  match d with
-  | DDefs => {| n_defs := v; n_paths := n_paths n; n_files := n_files n; n_modes := n_modes n; n_passes := n_passes n; n_up := n_up n; n_ov := n_ov n |}
-  | DPaths => {| n_defs := n_defs n; n_paths := v; n_files := n_files n; n_modes := n_modes n; n_passes := n_passes n; n_up := n_up n; n_ov := n_ov n |}
-  | DFiles => {| n_defs := n_defs n; n_paths := n_paths n; n_files := v; n_modes := n_modes n; n_passes := n_passes n; n_up := n_up n; n_ov := n_ov n |}
-  | DModes => {| n_defs := n_defs n; n_paths := n_paths n; n_files := n_files n; n_modes := v; n_passes := n_passes n; n_up := n_up n; n_ov := n_ov n |}
-  | DPasses => {| n_defs := n_defs n; n_paths := n_paths n; n_files := n_files n; n_modes := n_modes n; n_passes := v; n_up := n_up n; n_ov := n_ov n |}
-  end.
+  {| n_defs := match d with DDefs => v | _ => n_defs n end;
+     n_paths := match d with DPaths => v | _ => n_paths n end;
+     n_sys := match d with DSys => v | _ => n_sys n end;
+     n_files := match d with DFiles => v | _ => n_files n end;
+     n_modes := match d with DModes => v | _ => n_modes n end;
+     n_passes := match d with DPasses => v | _ => n_passes n end;
+     n_up := n_up n; n_ov := n_ov n |}.
 Definition set_up (u : list (string * list string)) (n : ns) : ns :=
-  {| n_defs := n_defs n; n_paths := n_paths n; n_files := n_files n; n_modes := n_modes n; n_passes := n_passes n; n_up := u; n_ov := n_ov n |}.
+  {| n_defs := n_defs n; n_paths := n_paths n; n_sys := n_sys n; n_files := n_files n; n_modes := n_modes n; n_passes := n_passes n; n_up := u; n_ov := n_ov n |}.
 Definition add_ov (k : string) (n : ns) : ns :=
-  {| n_defs := n_defs n; n_paths := n_paths n; n_files := n_files n; n_modes := n_modes n; n_passes := n_passes n; n_up := n_up n; n_ov := k :: n_ov n |}.
+  {| n_defs := n_defs n; n_paths := n_paths n; n_sys := n_sys n; n_files := n_files n; n_modes := n_modes n; n_passes := n_passes n; n_up := n_up n; n_ov := k :: n_ov n |}.
+(* include_paths handed to every configuration: all -I values, then all -isystem values *)
+Definition base_paths (n : ns) : list string := n_paths n ++ n_sys n.
 
 Definition flag0 (r : rule) : string := match r_flags r with f :: _ => f | [] => "" end.
 Definition is_custom (a : action) : bool :=
@@ -426,9 +429,9 @@ Definition undefined_modes (c : compiler) (ms : list string) : list string :=
   filter (fun m => match aget m (c_modes c) with Some _ => false | None => true end) ms.
 
 Definition config_of (c : compiler) (n : ns) (pn : string) : option config :=
-  let base := {| g_pass := pn; g_defs := n_defs n; g_paths := n_paths n; g_files := n_files n; g_blocks := [] |} in
+  let base := {| g_pass := pn; g_defs := n_defs n; g_paths := base_paths n; g_files := n_files n; g_blocks := [] |} in
   if String.eqb pn "default" then
-    Some {| g_pass := pn; g_defs := n_defs n; g_paths := n_paths n; g_files := n_files n;
+    Some {| g_pass := pn; g_defs := n_defs n; g_paths := base_paths n; g_files := n_files n;
             g_blocks := defined_modes c (dedup (n_modes n)) |}
   else match aget pn (c_passes c) with
        | None => None
@@ -455,7 +458,7 @@ Definition init_up (rs : list rule) : list (string * list string) :=
                         then match r_default r with Some d => aset (flag0 r) d u | None => u end
                         else u) rs [].
 Definition init_ns (c : compiler) : ns :=
-  {| n_defs := []; n_paths := []; n_files := []; n_modes := []; n_passes := []; n_up := init_up (c_rules c); n_ov := [] |}.
+  {| n_defs := []; n_paths := []; n_sys := []; n_files := []; n_modes := []; n_passes := []; n_up := init_up (c_rules c); n_ov := [] |}.
 
 (* add_argument's "conflicting option string" is raised outside the try block: it still
    propagates.  An ambiguous abbreviation is found while the arguments are classified,
